@@ -354,7 +354,7 @@ class Unit:
             if kind in ('struct', 'enum', 'type', 'const', 'static'):
                 item = X.widen_item_vis(item, kind)
             if kind == 'const' and any(d.kind == 'fold' for d in blk.dirs):
-                item = fold_const(item, log)
+                item = fold_const(item, log, toks)
             for d in blk.dirs:
                 if d.kind == 'derive':
                     # R1 keeps the listed derives (they are in the source; logged)
@@ -532,7 +532,7 @@ class Unit:
         return res, contracted
 
 
-def fold_const(item, log):
+def fold_const(item, log, file_toks=None):
     """R14: the initialiser of a const is replaced by the literal it evaluates to (integers, + - * / << >> and parentheses only)."""
     eq = next(i for i, t in enumerate(item) if t.text == '=')
     semi = max(i for i, t in enumerate(item) if t.text == ';')
@@ -545,6 +545,15 @@ def fold_const(item, log):
             txt.append('//' if t.text == '/' else t.text)
         elif t.kind == 'punct' and t.text == '>':
             txt.append('>')
+        elif t.kind == 'ident' and file_toks is not None and t.text.isupper():
+            # another integer const of the same file: folded recursively from its own initialiser
+            try:
+                (s2, k2, e2) = X.locate(file_toks, 'const ' + t.text)
+            except Exception:
+                raise Maintenance('R14: cannot fold const initialiser token `%s` (no such const in the file)' % t.text)
+            sub = fold_const([x.copy() for x in file_toks[s2:e2]], log, file_toks)
+            eq2 = next(i for i, x in enumerate(sub) if x.text == '=')
+            txt.append(sub[eq2 + 1].text)
         else:
             raise Maintenance('R14: cannot fold const initialiser token `%s`' % t.text)
     src = ' '.join(txt).replace('> >', '>>')
